@@ -34,6 +34,7 @@ def run(ctx):
     ctx.guard(rule_c, ctx, ix)
     ctx.guard(rule_d, ctx, ix)
     ctx.guard(rule_e, ctx, ix)
+    ctx.guard(rule_f, ctx, ix)
 
 
 def _table(ix, mod, name):
@@ -339,3 +340,47 @@ def rule_e(ctx, ix):
                                 'broadcast attribute (a pixel attribute, a link result) counts each repeated value once instead of '
                                 'once per element' % (norm(st), sorted(REPETITION_SENSITIVE - excluded)),
                   shape='guards of `%s`' % norm(st), where=where(f, st))
+
+
+def rule_f(ctx, ix):
+    """The result is padded back to the full shape exactly when the values were cut to the minimal sub-array."""
+    from ..cfg import CFG
+    R = 'C10.f'
+    ctx.describe(R, 'when the minimal sub-array is given up (flag cleared) the padding of the result is given up too', floor=2)
+    f = ix.cls('glue.core.data.Data').resolve_func('compute_statistic')
+    cfg = CFG(f.node)
+
+    def is_assign(e, name, value=None):
+        return isinstance(e, ast.Assign) and len(e.targets) == 1 and unparse(e.targets[0]) == name and \
+            (value is None or unparse(e.value) == value)
+    flag = 'use_subarray_slices'
+    B = common.nodes_where(cfg, lambda e: is_assign(e, flag, 'False'))
+    reset = set(common.nodes_where(cfg, lambda e: is_assign(e, 'subarray_slices', 'None')))
+    pad = common.nodes_where(cfg, lambda e: isinstance(e, ast.Assign) and isinstance(e.targets[0], ast.Subscript)
+                             and 'result_slices' in unparse(e.targets[0].slice) and unparse(e.value) == 'result')
+    cut = common.nodes_where(cfg, lambda e: is_assign(e, 'mask', 'mask[subarray_slices]'))
+    if not B or not pad or not cut:
+        raise AnalysisError('Data.compute_statistic: sub-array flag (%d), cut (%d) or padding (%d) no longer recognised' % (len(B), len(cut), len(pad)))
+    pm = parent_map(f.node)
+    for c in cut:
+        tests = [unparse(g.test) for g, br in guard_chain(pm, cfg.stmt[c], f.node) if isinstance(g, ast.If) and br == 'body']
+        ctx.ob(R, f.construct + ' cut', 'the mask is cut to the sub-array only under the flag', flag in tests,
+               detail='Data.compute_statistic cuts the mask to the minimal sub-array without testing %s' % flag, where=where(f, cfg.stmt[c]))
+    # once the flag is cleared it is false: the true edge of `if use_subarray_slices` is infeasible from there
+    pruned = {(n, 'true') for n in cfg.nodes() if cfg.kind[n] == 'if' and unparse(cfg.stmt[n].test) == flag}
+    pruned |= {(n, 'false') for n in cfg.nodes() if cfg.kind[n] == 'if' and unparse(cfg.stmt[n].test) == 'not ' + flag}
+    for b in B:
+        for p in pad:
+            path = cfg.path_avoiding(b, p, avoid=reset, labels_excluded=('exc', 'raise'), pruned_edges=pruned)
+            ctx.ob(R, '%s `%s` -> padding' % (f.construct, norm(cfg.stmt[b])) + ' @%s' % _guard_text(pm, cfg.stmt[b], f.node),
+                   'after the sub-array is given up, the result is not padded as if it had been cut', path is None,
+                   detail='Data.compute_statistic gives up the minimal sub-array (`%s`, e.g. for a view with a step) but keeps '
+                          'subarray_slices set, so the result - already full-size - is still written into a padded array through '
+                          'the sub-array slices: with a reduction axis this raises ValueError (or pads wrongly) whenever the '
+                          'selection does not span the whole view' % norm(cfg.stmt[b]),
+                   where=where(f, cfg.stmt[b]), path=cfg.guards_on_path(path) if path else None)
+
+
+def _guard_text(pm, st, stop):
+    gs = [g for g, br in guard_chain(pm, st, stop) if isinstance(g, ast.If)]
+    return unparse(gs[0].test)[:50] if gs else ''
